@@ -6,9 +6,11 @@ import (
 	"io"
 	"os"
 	"path/filepath"
+	"reflect"
 	"sort"
 	"strings"
 	"sync"
+	"sync/atomic"
 	"testing"
 	"time"
 
@@ -240,6 +242,43 @@ func checkC12(c caseC12) (viol string, nontrivial bool, feats []string) {
 			feats = append(feats, "shared:warnings")
 		}
 	}
+	if c.Kind == "callers-bind" {
+		// every caller unmarshals into struct types nobody has bound before
+		// (tags included), so caches keyed by type are populated concurrently
+		var wg sync.WaitGroup
+		start := make(chan struct{})
+		errs := make([]string, c.N)
+		for i := 0; i < c.N; i++ {
+			wg.Add(1)
+			go func(i int) {
+				defer wg.Done()
+				<-start
+				for k := 0; k < 6; k++ {
+					T := reflect.StructOf([]reflect.StructField{
+						{Name: "Name", Type: reflect.TypeOf("")},
+						{Name: fmt.Sprintf("F%d", k), Type: reflect.TypeOf(0), Tag: reflect.StructTag(fmt.Sprintf(`bcl:"tag_%d_%d_%d"`, c.N, i, k))},
+						{Name: "Plain", Type: reflect.TypeOf("")},
+						{Name: fmt.Sprintf("Pad%d", bindSerialFor(i, k)), Type: reflect.TypeOf(false)},
+					})
+					tgt := reflect.New(T)
+					src := fmt.Sprintf("def t \"n%d\" { tag_%d_%d_%d = %d; plain = \"p\" }\nbind t -> struct\n", i, c.N, i, k, i*100+k)
+					if err := bcl.Unmarshal([]byte(src), tgt.Interface(), bcl.OptOutput(io.Discard), bcl.OptLogger(io.Discard)); err != nil {
+						errs[i] = err.Error()
+					} else if got := tgt.Elem().Field(1).Int(); got != int64(i*100+k) {
+						errs[i] = fmt.Sprintf("field holds %d, want %d", got, i*100+k)
+					}
+				}
+			}(i)
+		}
+		close(start)
+		wg.Wait()
+		for i, e := range errs {
+			if e != "" {
+				return fmt.Sprintf("concurrent Unmarshal %d of %d: %s", i, c.N, e), false, feats
+			}
+		}
+		nontrivial = c.N >= 2
+	}
 	for _, rep := range newRaceReports() {
 		if strings.Contains(rep, "github.com/wkhere/bcl") {
 			return "data race reported by the Go race detector:\n" + clip(rep, 2500), nontrivial, feats
@@ -249,6 +288,12 @@ func checkC12(c caseC12) (viol string, nontrivial bool, feats []string) {
 	return "", nontrivial, feats
 }
 
+// bindSerialFor makes the generated struct types differ from run to run
+// (types are cached by the runtime for the life of the process).
+func bindSerialFor(i, k int) int64 { return atomic.AddInt64(&bindCounter, 1) }
+
+var bindCounter int64
+
 func sortedLines(s string) []string {
 	l := strings.Split(s, "\n")
 	sort.Strings(l)
@@ -257,7 +302,11 @@ func sortedLines(s string) []string {
 
 func genC12(t *rapid.T) caseC12 {
 	var c caseC12
-	switch gen.Weighted(t, "kind", 45, 25, 30) {
+	switch gen.Weighted(t, "kind", 40, 20, 25, 15) {
+	case 3:
+		c.Kind = "callers-bind"
+		c.N = gen.Int(t, 2, 12, "ncallers")
+		return c
 	case 0:
 		c.Kind = "pipeline"
 		in := inputSpec{LexAt: -1, Wide: gen.Bool(t, "wide")}
